@@ -126,6 +126,35 @@ CLAIMED["C16"] = (
     "A",
 )
 
+CLAIMED["C02"] = (
+    "property-based testing / fuzzing with a crash oracle plus response accounting: generated documents of all strata with edit histories; in process all 13 handlers, the broker and the analysis run under catch_unwind with a panic-site signature; against the real binary generated sessions must get one result response per request, strict frames, exit status 0",
+    "Exploration: 12k (250k) in-process cases (about 650k (13M) handler calls) and 1.5k (40k) sessions of 20-60 messages against the release binary. Held = no panic, no handler error, no unanswered request in the explored space.",
+    "Trusted: the session driver's strict frame parser; the nesting bound (stack exhaustion beyond it is outside the property); well-formed params and integer ids.",
+    "DESIGN.md section 6 C02",
+    "A+B",
+)
+CLAIMED["C18"] = (
+    "model-based testing against the real binary: all sessions up to length 3 (4) over the 8-symbol message alphabet exhaustively plus random longer sessions, compared with a lifecycle state machine (responses by id, error codes, exit status); fault injection: end of input after random byte prefixes with a watchdog",
+    "Exploration with a completely enumerated sub-space (584 (4680) short sessions) plus 2.5k (50k) random sessions and 6k (150k) end-of-input prefixes. Termination is judged against a 20 s watchdog after three attempts.",
+    "Trusted: the lifecycle model transcribed from the property statement (the window between initialize and initialized accepts both rejection codes); strict frame parser.",
+    "DESIGN.md section 6 C18",
+    "B",
+)
+CLAIMED["C19"] = (
+    "metamorphic testing against the real binary: the same session byte stream is written in one piece and under a segmentation (every two-way split position of sampled sessions exhaustively; one byte per write; several messages per write; random cuts with sleeps); responses, per-URI diagnostics and exit status must be equal; emitted frames are parsed strictly",
+    "Exploration: all two-way splits of 4 (60) sessions (about 5k (150k) split positions) plus 1.2k (30k) random segmentations; each case is two runs of the server.",
+    "Trusted: pipes deliver writes as segments (the kernel may merge them; sleeps and byte-wise writes make merges unlikely but not impossible); completion item order is canonicalised.",
+    "DESIGN.md section 6 C19",
+    "B",
+)
+CLAIMED["C20"] = (
+    "model-based testing under load against the real binary: pipelined bursts of 100-800 messages over 2-5 URIs (incl. URIs differing only in scheme/authority) with back-pressure, checked against a per-URI client text model through the guarded $/verif/text request and hover, response order, final diagnostics (vs an unloaded in-process replay), capability gating, closed documents",
+    "Exploration: 1.2k (20k) bursts x 2 schedules. Scheduler interleavings are sampled, not controlled (see DESIGN section 10).",
+    "Trusted: client text model; the in-process replay as reference for the final diagnostics (C01 owns incremental = fresh).",
+    "DESIGN.md section 6 C20",
+    "B",
+)
+
 NOT_YET = "check not built yet (implementation in progress, see DESIGN.md section 8 build order)"
 NOT_APPLICABLE = {}
 
